@@ -238,6 +238,7 @@ Definition is_nodefault (d : pdefault) : bool := match d with NoDefault => true 
 Definition name_ok (e : shipped) (s : schema) : bool := String.eqb (e_key e) (e_name e) && String.eqb (e_name e) (s_name s).
 Definition domain_ok (e : shipped) (s : schema) : bool := String.eqb (e_domain e) (s_domain s).
 Definition since_ok (e : shipped) (s : schema) : bool := Z.eqb (e_since e) (s_since s).
+Definition live_ok (e : shipped) (s : schema) : bool := negb (s_deprecated s).
 Definition classified_ok (e : shipped) (s : schema) : bool := is_nil (e_bad e) && is_nil (s_bad s).
 Definition inputs_ok (e : shipped) (s : schema) : bool := list_eqb field_eqb (e_inputs e) (s_inputs s).
 Definition outputs_ok (e : shipped) (s : schema) : bool := list_eqb field_eqb (e_outputs e) (s_outputs s).
@@ -317,10 +318,10 @@ Definition signature_ok (e : shipped) (s : schema) : bool :=
 Definition obs_ident_ok (s : schema) (o : obs) : bool :=
   String.eqb (o_optype o) (s_name s) && String.eqb (o_domain o) (s_domain s) && o_classok o.
 Definition obs_in_ok (s : schema) (o : obs) : bool :=
-  fitsb (kinds (s_inputs s)) (o_args o) && nodupb String.eqb (flat (o_args o))
+  fitsb (kinds (s_inputs s)) (o_args o) && nodupb String.eqb (filter nonempty (flat (o_args o)))
   && list_eqb String.eqb (o_in o) (emit (s_min_in s) (o_args o)).
 Definition obs_out_ok (s : schema) (o : obs) : bool :=
-  fitsb (kinds (s_outputs s)) (o_ret o) && nodupb String.eqb (flat (o_ret o))
+  fitsb (kinds (s_outputs s)) (o_ret o) && nodupb String.eqb (filter nonempty (flat (o_ret o)))
   && list_eqb String.eqb (o_out o) (emit (s_min_out s) (o_ret o)).
 Definition attr_names (e : shipped) : list string := map a_name (e_attrs e).
 Definition eff (e : shipped) (o : obs) : string -> option aval := eff_of (ctor_default (e_params e)) (o_given o).
@@ -366,7 +367,7 @@ Definition coverage_ok (e : shipped) (s : schema) : bool :=
 (* all failure keys of one entry against its schema *)
 Definition all_failures (e : shipped) (s : schema) : list string :=
   guard (name_ok e s) "name" ++ guard (domain_ok e s) "domain" ++ guard (since_ok e s) "since-version"
-  ++ guard (classified_ok e s) "unclassifiable"
+  ++ guard (classified_ok e s) "unclassifiable" ++ guard (live_ok e s) "deprecated"
   ++ guard (inputs_ok e s) "inputs" ++ guard (outputs_ok e s) "outputs"
   ++ flat_map (fun a => guard (attr_ok e s a) ("attributes/" ++ a_name a)) (e_attrs e)
   ++ flat_map (fun b => guard (sattr_ok e b) ("attributes/" ++ sa_name b)) (s_attrs s)
@@ -406,3 +407,90 @@ Definition failing_obs (table : list shipped) (schemas : list schema) : list (st
                      | Some s => flat_map (fun o => match obs_fail e s o with [] => [] | l => [(e_key e, o_label o, l)] end) (e_obs e)
                      | None => []
                      end) table.
+
+(* ------------------------------------------------------------------------------------------------ the property, declaratively
+   [Conforms excused schemas e]: the statement of C11 for one shipped entry, each clause spelled out.  A clause is
+   either established or its failure key is a member of [excused] ([Exc]).  With [excused = []] this is the property
+   itself.  SigFacts.v proves  check_all excused table schemas = true -> forall e, In e table -> Conforms ... e. *)
+
+Definition Exc (x : list string) (k : string) (P : Prop) : Prop := In k x \/ P.
+
+Definition AttrConforms (e : shipped) (s : schema) (a : attr_field) : Prop :=
+  exists b, find_sattr (a_name a) (s_attrs s) = Some b                        (* the schema has an attribute of that name *)
+    /\ class_type (a_class a) = sa_type b /\ a_ptype a = sa_type b            (* of the same kind *)
+    /\ a_opt a = negb (sa_required b || has_default b)                        (* the field may be unset iff optional without default *)
+    /\ exists p, find_param (a_name a) (e_params e) = Some p /\ p_kwonly p = true
+                 /\ is_nodefault (p_default p) = sa_required b.               (* required by the constructor iff required by the schema *)
+
+Definition DefaultConforms (e : shipped) (b : sattr) : Prop :=
+  forall p, find_param (sa_name b) (e_params e) = Some p ->
+    match sa_default b with
+    | Some v => p_default p = DefVal v                                        (* constructor default = schema default *)
+    | None => p_default p = NoDefault \/ p_default p = DefNone                (* no invented default *)
+    end.
+
+Definition PosParamConforms (p : param) (f : field) : Prop :=
+  p_name p = f_name f /\ p_kind p = Some (f_kind f)
+  /\ match f_kind f with
+     | Single => p_default p = NoDefault
+     | Optional => p_default p = DefNone
+     | Variadic => p_default p = NoDefault \/ p_default p = DefEmpty
+     end.
+
+Definition SignatureConforms (e : shipped) (s : schema) : Prop :=
+  Forall2 PosParamConforms (pos_params (e_params e)) (s_inputs s)             (* positional parameter i is schema input i *)
+  /\ NoDup (map p_name (e_params e))
+  /\ (extra_kw e = [] \/ exists p, extra_kw e = [p] /\ last_is_variadic (s_outputs s) = true
+                                   /\ p_ann p = "int" /\ p_default p = NoDefault)
+  /\ ret_ok (e_ret e) (kinds (s_outputs s)) = true.
+
+Definition ObsIdent (s : schema) (o : obs) : Prop :=
+  o_optype o = s_name s /\ o_domain o = s_domain s /\ o_classok o = true.
+
+(* the names emitted for an argument pattern: exactly [emit], and ONNX's positional binding of them to the schema's
+   formal parameters gives back argument i in slot i *)
+Definition ObsSlots (sig : list kind) (m : nat) (args : list arg) (names : list string) : Prop :=
+  fitsb sig args = true /\ NoDup (filter nonempty (flat args)) /\ names = emit m args /\ bind_slots sig names = Some args.
+
+Definition ObsAttr (e : shipped) (s : schema) (o : obs) : Prop :=
+  o_attr o = emit_attrs (attr_names e) (eff e o)                              (* given value, else constructor default, under the field's name *)
+  /\ (forall n v, In (n, v) (o_attr o) -> exists b, find_sattr n (s_attrs s) = Some b /\ aval_type v = sa_type b)
+  /\ NoDup (map fst (o_given o))
+  /\ (forall n v, In (n, v) (o_given o) -> exists p, In p (e_params e) /\ p_kwonly p = true /\ p_name p = n).
+
+Definition ObsConforms (x : list string) (e : shipped) (s : schema) (o : obs) : Prop :=
+  (o_raised o <> "" /\ In (key e ("emission/raised-" ++ o_raised o)) x)
+  \/ (o_raised o = ""
+      /\ Exc x (key e "emission/op_type") (ObsIdent s o)
+      /\ Exc x (key e "emission/inputs") (ObsSlots (kinds (s_inputs s)) (s_min_in s) (o_args o) (o_in o))
+      /\ Exc x (key e "emission/outputs") (ObsSlots (kinds (s_outputs s)) (s_min_out s) (o_ret o) (o_out o))
+      /\ Exc x (key e "emission/attributes") (ObsAttr e s o)).
+
+Definition Coverage (e : shipped) (s : schema) : Prop :=
+  (forall m, In m (masks (kinds (s_inputs s))) -> exists o, In o (e_obs e) /\ mask_of o = m)
+  /\ (last_is_variadic (s_inputs s) = true -> forall n, (n <= 3)%nat -> exists o, In o (e_obs e) /\ var_len o = Some n)
+  /\ (forall a, In a (optional_attrs e) -> exists o, In o (e_obs e) /\ given_optional e o = [a])
+  /\ (exists o, In o (e_obs e) /\ given_optional e o = [])
+  /\ (exists o, In o (e_obs e) /\ given_optional e o = optional_attrs e).
+
+Definition ConformsS (x : list string) (e : shipped) (s : schema) : Prop :=
+  Exc x (key e "name") (e_key e = e_name e /\ e_name e = s_name s)
+  /\ Exc x (key e "domain") (e_domain e = s_domain s)
+  /\ Exc x (key e "since-version") (e_since e = s_since s)
+  /\ Exc x (key e "unclassifiable") (e_bad e = [] /\ s_bad s = [])
+  /\ Exc x (key e "deprecated") (s_deprecated s = false)      (* the schema in force is not one ONNX has withdrawn *)
+  /\ Exc x (key e "inputs") (e_inputs e = s_inputs s)
+  /\ Exc x (key e "outputs") (e_outputs e = s_outputs s)
+  /\ (forall a, In a (e_attrs e) -> Exc x (key e ("attributes/" ++ a_name a)) (AttrConforms e s a))
+  /\ (forall b, In b (s_attrs s) ->
+        Exc x (key e ("attributes/" ++ sa_name b)) (exists a, In a (e_attrs e) /\ a_name a = sa_name b))
+  /\ (forall b, In b (s_attrs s) -> Exc x (key e ("defaults/" ++ sa_name b)) (DefaultConforms e b))
+  /\ Exc x (key e "signature") (SignatureConforms e s)
+  /\ (forall o, In o (e_obs e) -> ObsConforms x e s o)
+  /\ Exc x (key e "coverage") (Coverage e s).
+
+Definition Conforms (x : list string) (schemas : list schema) (e : shipped) : Prop :=
+  match find_schema (e_key e) schemas with
+  | Some s => s_name s = e_key e /\ In s schemas /\ ConformsS x e s
+  | None => In (key e "schema-missing") x
+  end.
